@@ -43,9 +43,9 @@ def casing(s, rng):
     return s if c == 0 else s.lower() if c == 1 else "".join(ch.lower() if i % 2 else ch for i, ch in enumerate(s))
 
 
-def concretise(inv, a, files, rng, bins):
+def concretise(inv, a, files, rng, bins, sems=None):
     n = a["n"]
-    sem = rng.choice(SEMS)
+    sem = rng.choice(sems or SEMS)
     argv = [bins[inv["bin"]]]
     if inv["bin"] == "crustabri":
         argv.append("solve")
@@ -146,10 +146,10 @@ def run_one(job):
             "wargs": wargs, "malformed": malformed, "nlog": nlog, "argv": argv[1:]}
 
 
-def run_all(invs, afs, workdir, bins, seed, per_af):
+def run_all(invs, afs, workdir, bins, seed, per_af, sems=None, subdir="clifiles"):
     """returns segments: [af event, cli events...] ; invocations are dealt round-robin over the frameworks"""
     rng = random.Random(seed)
-    d = os.path.join(workdir, "clifiles")
+    d = os.path.join(workdir, subdir)
     os.makedirs(d, exist_ok=True)
     rng.shuffle(invs)
     segs, jobs, owners = [], [], []
@@ -157,13 +157,13 @@ def run_all(invs, afs, workdir, bins, seed, per_af):
     for idx, a in enumerate(afs):
         files = write_files(a, d, idx)
         segs.append([{"ev": "af", "idx": idx, "n": a["n"], "args": list(range(1, a["n"] + 1)), "ids": [], "att": a["att"],
-                      "present": "file", "tag": a.get("tag", ""), "sems": SEMS}])
+                      "present": "file", "tag": a.get("tag", ""), "sems": sorted(set(sems or SEMS))}])
         for _ in range(per_af):
             if k >= len(invs):
                 break
             inv = invs[k]
             k += 1
-            argv, sem, args = concretise(inv, a, files, rng, bins)
+            argv, sem, args = concretise(inv, a, files, rng, bins, sems)
             jobs.append((inv, argv, sem, args))
             owners.append(idx)
     with cf.ThreadPoolExecutor(max_workers=os.cpu_count() or 4) as ex:
